@@ -209,7 +209,11 @@ func (e *TOCEntry) addChild(baseName string, child *TOCEntry) {
 		e.children = make(map[string]*TOCEntry)
 	}
 	if child.Type == "dir" {
-		e.NumLink++ // Entry ".." in the subdirectory links to this directory
+		// Entry ".." in the subdirectory links to this directory. A directory
+		// that is listed again under the same name is still one subdirectory.
+		if prev, ok := e.children[baseName]; !ok || prev.Type != "dir" {
+			e.NumLink++
+		}
 	}
 	e.children[baseName] = child
 }
